@@ -116,5 +116,5 @@ type Cond = sync.Cond
 type Map = sync.Map
 type Pool = sync.Pool
 
-func NewCond(l Locker) *Cond { verifrt.Unmodelled("sync.Cond"); return sync.NewCond(l) }
+func NewCond(l Locker) *Cond   { verifrt.Unmodelled("sync.Cond"); return sync.NewCond(l) }
 func OnceFunc(f func()) func() { var o Once; return func() { o.Do(f) } }
